@@ -15,6 +15,7 @@ Set Implicit Arguments.
 
 (* ------------------------------------------------------------------ vocabulary of Gen.v *)
 Definition zlen {A} (l : list A) : Z := Z.of_nat (length l).
+Arguments zlen : simpl never.
 
 (* `for i in range(n): if c(i): break; ...`  iterates over the longest prefix on which c is false *)
 Fixpoint ztake_while (p : Z -> bool) (l : list Z) : list Z :=
@@ -82,7 +83,7 @@ Section Vec.
 End Vec.
 
 (* ------------------------------------------------------------------ combinatorics of a face list *)
-Definition dedge : Type := (Z * Z)%type.
+Notation dedge := (Z * Z)%type (only parsing).
 
 (* directed edges (f_k, f_{k+1 mod n}) of one face, in order *)
 Definition fedges (f : list Z) : list dedge :=
